@@ -1631,19 +1631,19 @@ fn main() {
     }
     if want("combine") {
         let c2 = ctx.clone();
-        ctx.run_prop("combine", arb_combine_case, ctx.tier.pick(3_000, 150_000), move |c| check_combine(&c2, c));
+        ctx.run_prop("combine", arb_combine_case, ctx.tier.pick(8_000, 150_000), move |c| check_combine(&c2, c));
     }
     if want("combine-structure") {
         let c2 = ctx.clone();
-        ctx.run_prop("combine-structure", structure::arb_struct_case, ctx.tier.pick(2_400, 120_000), move |c| structure::check_structure(&c2, c));
+        ctx.run_prop("combine-structure", structure::arb_struct_case, ctx.tier.pick(8_000, 120_000), move |c| structure::check_structure(&c2, c));
     }
     if want("encoding") {
         let c2 = ctx.clone();
-        ctx.run_prop("encoding", arb_encoding_case, ctx.tier.pick(2_400, 120_000), move |c| check_encoding(&c2, c));
+        ctx.run_prop("encoding", arb_encoding_case, ctx.tier.pick(6_000, 120_000), move |c| check_encoding(&c2, c));
     }
     if want("roles") {
         let c2 = ctx.clone();
-        ctx.run_prop("roles", arb_roles_case, ctx.tier.pick(1_600, 80_000), move |c| check_roles(&c2, c));
+        ctx.run_prop("roles", arb_roles_case, ctx.tier.pick(4_000, 80_000), move |c| check_roles(&c2, c));
     }
     if want("prove-extract") && (ctx.tier == vcore::Tier::Thorough || std::env::var("C13_FORCE_EXTRACT").is_ok()) {
         let c2 = ctx.clone();
